@@ -42,28 +42,52 @@ func rsl(xs ...float64) string {
 	return strings.Join(parts, " ")
 }
 
-func (x *xf) tokens(dim int) string {
+func (x *xf) tokens(dim int) string { return x.tokensWith(dim, rsl) }
+
+// tokensHex renders the description with IEEE bit patterns (bits mode).
+func (x *xf) tokensHex(dim int) string { return x.tokensWith(dim, hxl) }
+
+func (x *xf) tokensWith(dim int, f func(...float64) string) string {
 	switch x.kind {
 	case 'T':
-		return "T " + rsl(x.v[:dim]...)
+		return "T " + f(x.v[:dim]...)
 	case 'S':
-		return "S " + rs(x.s)
+		return "S " + f(x.s)
 	case 'V':
-		return "V " + rsl(x.v[:dim]...)
+		return "V " + f(x.v[:dim]...)
 	case 'M':
-		return "M " + rsl(x.m...)
+		return "M " + f(x.m...)
 	case 'O':
-		return "O " + rsl(x.m...)
+		return "O " + f(x.m...)
 	case 'Q':
-		return fmt.Sprintf("Q %d %s", x.axis, rsl(x.lo, x.hi, x.ratio))
+		return fmt.Sprintf("Q %d %s", x.axis, f(x.lo, x.hi, x.ratio))
 	case 'J':
 		parts := []string{fmt.Sprintf("J %d", len(x.subs))}
 		for _, s := range x.subs {
-			parts = append(parts, s.tokens(dim))
+			parts = append(parts, s.tokensWith(dim, f))
 		}
 		return strings.Join(parts, " ")
 	}
 	panic("bad kind")
+}
+
+// hx renders a float64 for bits mode: IEEE bit pattern, -0 as +0, any NaN as "nan".
+func hx(x float64) string {
+	if math.IsNaN(x) {
+		return "nan"
+	}
+	if x == 0 {
+		x = 0
+	}
+	return hlib.Hex(x)
+}
+
+func hxl(xs ...float64) string {
+	parts := make([]string, len(xs))
+	for i, x := range xs {
+		parts[i] = hx(x)
+	}
+	return strings.Join(parts, " ")
 }
 
 func (x *xf) isDist() bool {
@@ -321,6 +345,38 @@ func (g *gen) transform(distOnly bool, depth int) *xf {
 	return x
 }
 
+// reflJoin draws a JoinedTransform of 3-5 DistTransforms that always contains a reflection (negative
+// uniform scale), a translation and an orthogonal matrix, in random order, sometimes with one member
+// being itself a join (so JoinedTransform.ApplyDistance and nested Inverse() are exercised).
+func (g *gen) reflJoin() *xf {
+	subs := []*xf{
+		{kind: 'S', s: -g.pow2(2)},
+		{kind: 'O', m: g.signedPerm()},
+	}
+	t := &xf{kind: 'T'}
+	for i := 0; i < g.dim; i++ {
+		t.v[i] = g.dy()
+	}
+	subs = append(subs, t)
+	for n := g.c.Rng.Intn(3); n > 0; n-- {
+		subs = append(subs, g.prim(true))
+	}
+	if g.c.Rng.Intn(2) == 0 {
+		subs = append(subs, &xf{kind: 'J', subs: []*xf{g.prim(true), g.prim(true)}})
+	}
+	g.c.Rng.Shuffle(len(subs), func(i, j int) { subs[i], subs[j] = subs[j], subs[i] })
+	g.c.Stat(fmt.Sprintf("refljoin%d.len%d", g.dim, len(subs)), 1)
+	return &xf{kind: 'J', subs: subs}
+}
+
+// distTransform draws a DistTransform: a reflecting join of >= 3 members one time in three.
+func (g *gen) distTransform() *xf {
+	if g.c.Rng.Intn(3) == 0 {
+		return g.reflJoin()
+	}
+	return g.transform(true, 0)
+}
+
 func (x *xf) stat(c *hlib.Ctx, prefix string) {
 	c.Stat(prefix+"."+string(x.kind), 1)
 	if x.kind == 'S' && x.s < 0 {
@@ -380,6 +436,10 @@ func run(c *hlib.Ctx) {
 	runPinch(c)
 	runConj(c)
 	runSmart(c)
+	runSmartCorr(c)
+	runBits(c)
+	runPinchBits(c)
+	runBits2(c)
 }
 
 func main() { hlib.Main("C05", run) }
